@@ -78,6 +78,18 @@ void fdlayer_reset() {
   g_open_fds.clear();
   g_regs.clear();
 }
+// An epoll registration is a reference the kernel holds: its data.ptr comes back with the next readiness event.
+// Memory that is freed while such a registration is still in place will be dereferenced by the event loop later.
+void fd_on_arena_free(void* p, size_t n) {
+  for (size_t i = 0; i < g_regs.size(); ++i)
+    if ((uintptr_t)g_regs[i].ptr >= (uintptr_t)p && (uintptr_t)g_regs[i].ptr < (uintptr_t)p + n) {
+      char msg[200];
+      snprintf(msg, sizeof msg, "a %zu-byte block is freed while the epoll set still holds a registration for fd %d whose data.ptr points into it (offset +%ld): the next readiness event is dispatched into freed memory",
+               n, g_regs[i].fd, (long)((uintptr_t)g_regs[i].ptr - (uintptr_t)p));
+      end_run_with_verdict(USIM_V_VIOLATION, "c14.stale-registration", msg);
+    }
+}
+int g_last_pipe[2] = {-1, -1};
 void fdlayer_end_of_run() {
   if (g_open_fds.size()) {
     char msg[200];
@@ -93,6 +105,8 @@ void fdlayer_end_of_run() {
 
 extern "C" {
 
+// For the workload: the descriptors of the pipe created last (to shrink its capacity, fill and drain it behind the library's back)
+void usim_last_pipe(int out[2]) { out[0] = g_last_pipe[0]; out[1] = g_last_pipe[1]; }
 // For the workload: the registrations currently held by the kernel whose data.ptr lies in [p, p+n)
 int usim_epoll_registrations_in(const void* p, size_t n) {
   int c = 0;
@@ -169,7 +183,7 @@ int eventfd(unsigned initval, int flags) {
 int pipe2(int* fds, int flags) {
   resolve_fd();
   int r = rfd.pipe2(fds, flags);
-  if (r == 0 && sim_on()) { note_open(fds[0]); note_open(fds[1]); }
+  if (r == 0 && sim_on()) { note_open(fds[0]); note_open(fds[1]); g_last_pipe[0] = fds[0]; g_last_pipe[1] = fds[1]; }
   return r;
 }
 
